@@ -83,48 +83,29 @@ Record hstate := mkH {
   (* GHOST history, not in the Python objects *)
   g_up_rcvd : bytes;           (* every byte upstream.recv() returned *)
   g_cl_rcvd : bytes;           (* every byte client recv() returned after the exchange was established *)
-  g_cl_queued : bytes          (* every byte ever queued for the client *)
+  g_cl_queued : bytes;         (* every byte ever queued for the client *)
+  g_last_cio : Z               (* time of the last send()/recv() attempted on the client socket (accept time before any) *)
 }.
 
 Definition init (t0 : Z) : hstate :=
-  mkH new_conn false false false t0 false PNone None false false [] [] [].
+  mkH new_conn false false false t0 false PNone None false false [] [] [] t0.
 
 (* ---- record updates *)
-Definition set_work (w : conn) (s : hstate) : hstate :=
-  mkH w (must_flush s) (writes_teared s) (reads_teared s) (last_activity s) (req_complete s) (plugin s)
-      (upstream s) (is_tunnel s) (pipeline_upgrade s) (g_up_rcvd s) (g_cl_rcvd s) (g_cl_queued s).
-Definition set_must_flush (b : bool) (s : hstate) : hstate :=
-  mkH (work s) b (writes_teared s) (reads_teared s) (last_activity s) (req_complete s) (plugin s)
-      (upstream s) (is_tunnel s) (pipeline_upgrade s) (g_up_rcvd s) (g_cl_rcvd s) (g_cl_queued s).
-Definition set_writes_teared (b : bool) (s : hstate) : hstate :=
-  mkH (work s) (must_flush s) b (reads_teared s) (last_activity s) (req_complete s) (plugin s)
-      (upstream s) (is_tunnel s) (pipeline_upgrade s) (g_up_rcvd s) (g_cl_rcvd s) (g_cl_queued s).
-Definition set_reads_teared (b : bool) (s : hstate) : hstate :=
-  mkH (work s) (must_flush s) (writes_teared s) b (last_activity s) (req_complete s) (plugin s)
-      (upstream s) (is_tunnel s) (pipeline_upgrade s) (g_up_rcvd s) (g_cl_rcvd s) (g_cl_queued s).
-Definition set_last_activity (t : Z) (s : hstate) : hstate :=
-  mkH (work s) (must_flush s) (writes_teared s) (reads_teared s) t (req_complete s) (plugin s)
-      (upstream s) (is_tunnel s) (pipeline_upgrade s) (g_up_rcvd s) (g_cl_rcvd s) (g_cl_queued s).
-Definition set_upstream (u : option conn) (s : hstate) : hstate :=
-  mkH (work s) (must_flush s) (writes_teared s) (reads_teared s) (last_activity s) (req_complete s) (plugin s)
-      u (is_tunnel s) (pipeline_upgrade s) (g_up_rcvd s) (g_cl_rcvd s) (g_cl_queued s).
-Definition set_pipeline_upgrade (b : bool) (s : hstate) : hstate :=
-  mkH (work s) (must_flush s) (writes_teared s) (reads_teared s) (last_activity s) (req_complete s) (plugin s)
-      (upstream s) (is_tunnel s) b (g_up_rcvd s) (g_cl_rcvd s) (g_cl_queued s).
-Definition set_request (complete : bool) (p : plugin_kind) (tunnel : bool) (s : hstate) : hstate :=
-  mkH (work s) (must_flush s) (writes_teared s) (reads_teared s) (last_activity s) complete p
-      (upstream s) tunnel (pipeline_upgrade s) (g_up_rcvd s) (g_cl_rcvd s) (g_cl_queued s).
-Definition note_up_rcvd (b : bytes) (s : hstate) : hstate :=
-  mkH (work s) (must_flush s) (writes_teared s) (reads_teared s) (last_activity s) (req_complete s) (plugin s)
-      (upstream s) (is_tunnel s) (pipeline_upgrade s) (g_up_rcvd s ++ b) (g_cl_rcvd s) (g_cl_queued s).
-Definition note_cl_rcvd (b : bytes) (s : hstate) : hstate :=
-  mkH (work s) (must_flush s) (writes_teared s) (reads_teared s) (last_activity s) (req_complete s) (plugin s)
-      (upstream s) (is_tunnel s) (pipeline_upgrade s) (g_up_rcvd s) (g_cl_rcvd s ++ b) (g_cl_queued s).
+Definition set_work (w : conn) (s : hstate) : hstate := mkH (w) (must_flush s) (writes_teared s) (reads_teared s) (last_activity s) (req_complete s) (plugin s) (upstream s) (is_tunnel s) (pipeline_upgrade s) (g_up_rcvd s) (g_cl_rcvd s) (g_cl_queued s) (g_last_cio s).
+Definition set_must_flush (b : bool) (s : hstate) : hstate := mkH (work s) (b) (writes_teared s) (reads_teared s) (last_activity s) (req_complete s) (plugin s) (upstream s) (is_tunnel s) (pipeline_upgrade s) (g_up_rcvd s) (g_cl_rcvd s) (g_cl_queued s) (g_last_cio s).
+Definition set_writes_teared (b : bool) (s : hstate) : hstate := mkH (work s) (must_flush s) (b) (reads_teared s) (last_activity s) (req_complete s) (plugin s) (upstream s) (is_tunnel s) (pipeline_upgrade s) (g_up_rcvd s) (g_cl_rcvd s) (g_cl_queued s) (g_last_cio s).
+Definition set_reads_teared (b : bool) (s : hstate) : hstate := mkH (work s) (must_flush s) (writes_teared s) (b) (last_activity s) (req_complete s) (plugin s) (upstream s) (is_tunnel s) (pipeline_upgrade s) (g_up_rcvd s) (g_cl_rcvd s) (g_cl_queued s) (g_last_cio s).
+Definition set_last_activity (t : Z) (s : hstate) : hstate := mkH (work s) (must_flush s) (writes_teared s) (reads_teared s) (t) (req_complete s) (plugin s) (upstream s) (is_tunnel s) (pipeline_upgrade s) (g_up_rcvd s) (g_cl_rcvd s) (g_cl_queued s) (g_last_cio s).
+Definition set_upstream (u : option conn) (s : hstate) : hstate := mkH (work s) (must_flush s) (writes_teared s) (reads_teared s) (last_activity s) (req_complete s) (plugin s) (u) (is_tunnel s) (pipeline_upgrade s) (g_up_rcvd s) (g_cl_rcvd s) (g_cl_queued s) (g_last_cio s).
+Definition set_pipeline_upgrade (b : bool) (s : hstate) : hstate := mkH (work s) (must_flush s) (writes_teared s) (reads_teared s) (last_activity s) (req_complete s) (plugin s) (upstream s) (is_tunnel s) (b) (g_up_rcvd s) (g_cl_rcvd s) (g_cl_queued s) (g_last_cio s).
+Definition set_request (complete : bool) (p : plugin_kind) (tunnel : bool) (s : hstate) : hstate := mkH (work s) (must_flush s) (writes_teared s) (reads_teared s) (last_activity s) (complete) (p) (upstream s) (tunnel) (pipeline_upgrade s) (g_up_rcvd s) (g_cl_rcvd s) (g_cl_queued s) (g_last_cio s).
+Definition note_up_rcvd (b : bytes) (s : hstate) : hstate := mkH (work s) (must_flush s) (writes_teared s) (reads_teared s) (last_activity s) (req_complete s) (plugin s) (upstream s) (is_tunnel s) (pipeline_upgrade s) (g_up_rcvd s ++ b) (g_cl_rcvd s) (g_cl_queued s) (g_last_cio s).
+Definition note_cl_rcvd (b : bytes) (s : hstate) : hstate := mkH (work s) (must_flush s) (writes_teared s) (reads_teared s) (last_activity s) (req_complete s) (plugin s) (upstream s) (is_tunnel s) (pipeline_upgrade s) (g_up_rcvd s) (g_cl_rcvd s ++ b) (g_cl_queued s) (g_last_cio s).
+(* GHOST: a send()/recv() on the client socket is attempted at time t *)
+Definition note_client_io (t : Z) (s : hstate) : hstate := mkH (work s) (must_flush s) (writes_teared s) (reads_teared s) (last_activity s) (req_complete s) (plugin s) (upstream s) (is_tunnel s) (pipeline_upgrade s) (g_up_rcvd s) (g_cl_rcvd s) (g_cl_queued s) (t).
 
 (* self.work.queue(mv) (also kept in the ghost history) *)
-Definition client_queue (mv : bytes) (s : hstate) : hstate :=
-  mkH (queue mv (work s)) (must_flush s) (writes_teared s) (reads_teared s) (last_activity s) (req_complete s)
-      (plugin s) (upstream s) (is_tunnel s) (pipeline_upgrade s) (g_up_rcvd s) (g_cl_rcvd s) (g_cl_queued s ++ mv).
+Definition client_queue (mv : bytes) (s : hstate) : hstate := mkH (queue mv (work s)) (must_flush s) (writes_teared s) (reads_teared s) (last_activity s) (req_complete s) (plugin s) (upstream s) (is_tunnel s) (pipeline_upgrade s) (g_up_rcvd s) (g_cl_rcvd s) (g_cl_queued s ++ mv) (g_last_cio s).
 Fixpoint client_queue_all (mvs : list bytes) (s : hstate) : hstate :=
   match mvs with
   | [] => s
@@ -155,6 +136,7 @@ Definition base_get_events (s : hstate) : bool * bool :=
         if must_flush_before_shutdown and not has_buffer: teardown = True; must_flush... = False *)
 Definition base_handle_writables (c : cfg) (ev : event) (s : hstate) : hstate * hres :=
   if c_w ev && has_buffer (work s) then
+    let s := note_client_io (now ev) s in            (* ghost: send() is about to be called *)
     match flush (max_send c) (c_send ev) (work s) with
     | (w', Flushed _) =>
         let s1 := set_work w' s in
@@ -219,9 +201,11 @@ Definition handle_data (c : cfg) (ev : event) (s : hstate) (data : bytes) : hsta
   if negb (req_complete s) then parse_first_request c ev s
   else on_client_data ev s data.
 
-(* BaseTcpServerHandler.handle_readables *)
-Definition base_handle_readables (c : cfg) (ev : event) (s : hstate) : hstate * hres :=
+(* BaseTcpServerHandler.handle_readables, parametric in the subclass's handle_data *)
+Definition base_handle_readables (hd : hstate -> bytes -> hstate * option bool) (ev : event) (s : hstate)
+  : hstate * hres :=
   if c_r ev then
+    let s := note_client_io (now ev) s in            (* ghost: recv() is called *)
     match c_recv ev with
     | RReset => (s, HRet true)
     | RTimeout _ => (s, HRet true)
@@ -229,7 +213,7 @@ Definition base_handle_readables (c : cfg) (ev : event) (s : hstate) : hstate * 
     | REof => (s, HRet true)
     | RData [] => (s, HRet true)
     | RData data =>
-        match handle_data c ev s data with
+        match hd s data with
         | (s1, Some true) =>
             if has_buffer (work s1) then (set_must_flush true s1, HRet false) else (s1, HRet true)
         | (s1, Some false) => (s1, HRet false)
@@ -299,7 +283,7 @@ Definition handle_writables (c : cfg) (ev : event) (s : hstate) : hstate * bool 
 Definition handle_readables (c : cfg) (ev : event) (s : hstate) : hstate * option bool :=
   if c_r ev then
     let s0 := set_last_activity (now ev) s in
-    match base_handle_readables c ev s0 with
+    match base_handle_readables (handle_data c ev) ev s0 with
     | (s1, HRet b) => (s1, Some b)
     | (s1, HOsErr) => (s1, Some true)         (* except socket.error: return True *)
     | (s1, HExc) => (s1, None)
@@ -382,8 +366,11 @@ Definition close_upstream (s : hstate) : hstate :=
   match upstream s with Some u => set_upstream (Some (close u)) s | None => s end.
 
 Definition shutdown (c : cfg) (sel : list (option outcome)) (s : hstate) : hstate :=
-  let w := if threadless c then work s else fst (threaded_flush (max_send c) sel (work s)) in
-  close_upstream (set_work (close w) s).
+  if threadless c then close_upstream (set_work (close (work s)) s)
+  else match threaded_flush (max_send c) sel (work s) with
+       | (w, Some FlushOsErr) => set_work (close w) s      (* `except OSError: pass` skips on_client_connection_close *)
+       | (w, _) => close_upstream (set_work (close w) s)
+       end.
 
 (* ---- abbreviations used in the statements *)
 Definition delivered_client (s : hstate) : bytes := sent (work s).
